@@ -280,16 +280,30 @@ def check(model: Model, run: Run) -> None:
     run.analysed(pn)
     (ca, oa), (cb, ob) = offsets(ua), offsets(pn)
     run.check(oa == ob == ['=3', '+=1', '+=byte[cursor]', '+=1'], MPR, 'validator offsets %s / lazy parser offsets %s' % (oa, ob), pn.loc(), 'RFC 4760 3: AFI(2) SAFI(1) next-hop length(1) next hop reserved(1) NLRI; the lazy parser must skip what the validator checked')
-    # next hop bytes = buffer[cursor + rd : cursor + rd + (nh length - rd)] with rd from Family.size of the own family
+    # next hop bytes: the function is evaluated on the MP_REACH of five families (the address after the all-zero RD, the first
+    # of a global / link-local pair, none for flowspec), however the slice is written
+    from ..evalfn import eval_function
+
     pl = Loc(model, pn)
-    rdv = [nm for nm, ds in pl.defs.items() if any(h == 'assign[1]' and isinstance(v, ast.Subscript) and (dotted(v.value) or '').endswith('Family.size') and norm(v.slice).replace('(', '').replace(')', '') == 'self.afi, self.safi' for v, h, _ in ds)]
-    ok_nh = False
-    if cb is not None and len(rdv) == 1:
-        for n in walk_no_nested(pn.node):
-            if isinstance(n, ast.Assign) and isinstance(n.value, ast.Subscript) and isinstance(n.value.slice, ast.Slice):
-                b = amatch('E_buf[V_o + V_rd:V_o + V_rd + (E_buf[V_o] - V_rd)]', pl.expanded(n.value), {'V_o': cb, 'V_rd': rdv[0]})
-                ok_nh = ok_nh or b is not None
-    run.check(ok_nh, pn.qualname, 'next hop = bytes after the RD-sized prefix, RD size from Family.size of the attribute own family', pn.loc(), 'the next hop of a VPN family follows an 8-byte zero RD')
+    v4, g6, l6 = bytes([10, 0, 0, 1]), bytes([0x20, 1, 0xD, 0xB8] + [0] * 11 + [1]), bytes([0xFE, 0x80] + [0] * 13 + [2])
+    cases = [
+        ('ipv4 unicast', 1, 1, v4, v4),
+        ('ipv6 unicast, global + link-local', 2, 1, g6 + l6, g6),
+        ('ipv4 mpls-vpn', 1, 128, bytes(8) + v4, v4),
+        ('ipv6 mpls-vpn', 2, 128, bytes(8) + g6, g6),
+        ('ipv4 flow', 1, 133, b'', None),
+    ]
+    rets = [r for r in walk_no_nested(pn.node) if isinstance(r, ast.Return) and isinstance(r.value, ast.Tuple) and r.value.elts]
+    ok_nh = bool(rets)
+    got_txt = []
+    for label, afi, safi, nh, want in cases:
+        packed = afi.to_bytes(2, 'big') + bytes([safi, len(nh)]) + nh + b'\x00' + bytes([24, 192, 0, 2])
+        env: dict = {}
+        eval_function(folder, pn, {'self': {'afi': afi, 'safi': safi, '_packed': packed, '_addpath': False}}, env_out=env, outcomes=True)
+        got = folder.fold(rets[0].value.elts[0], pn.module, pn.cls, env) if rets else UNKNOWN
+        got_txt.append('%s: %s' % (label, got.hex() if isinstance(got, bytes) else got))
+        ok_nh = ok_nh and got is not UNKNOWN and got == want
+    run.check(ok_nh, pn.qualname, 'next hop = bytes after the RD-sized prefix, RD size from Family.size of the attribute own family (%s)' % ('; '.join(got_txt) if not ok_nh else '5 cases'), pn.loc(), 'the next hop of a VPN family follows an 8-byte zero RD')
 
     # ------------------------------------------------------------------ R3 zero-length negative slice
     run.rule('C02.R3', 'no `x[:-n]` with a variable n that may be 0 in the AS_PATH/AS4_PATH merge (x[:-0] is empty, not x)', floor=1)
@@ -449,12 +463,9 @@ def check(model: Model, run: Run) -> None:
             fam = len(args) == 2 and isinstance(args[0], ast.Call) and model.call_matches(f.module, args[0], 'AFI.from_int') and isinstance(args[1], ast.Call) and model.call_matches(f.module, args[1], 'SAFI.from_int')
             run.check(fam, qn, 'for the family of the attribute (%s)' % ', '.join(norm(a) for a in args), f.loc(ad[0]), 'ADD-PATH is negotiated per family')
     req = model.func('exabgp.bgp.message.open.capability.negotiated.Negotiated.required')
-    okr = False
-    for n in walk_no_nested(req.node):
-        if isinstance(n, ast.If) and 'Direction.IN' in norm(n.test) and isinstance(n.test, ast.Compare) and isinstance(n.test.ops[0], ast.Eq):
-            t = n.body[-1]
-            e = n.orelse[-1] if n.orelse else None
-            okr = isinstance(t, ast.Return) and 'addpath.receive' in norm(t) and isinstance(e, ast.Return) and 'addpath.send' in norm(e)
+    from .C07 import required_maps_directions
+
+    okr = required_maps_directions(model, req)
     run.check(okr, req.qualname, 'IN -> receive, otherwise send', req.loc(), 'Negotiated.required maps the session direction to the ADD-PATH direction')
     pinit = model.func('exabgp.reactor.protocol.Protocol.__init__')
     run.check('Negotiated.make_negotiated(self.neighbor, Direction.IN)' in norm(pinit.node), pinit.qualname, 'the protocol negotiated object has Direction.IN', pinit.loc(), 'the decoder side must be IN')
@@ -557,3 +568,80 @@ def check(model: Model, run: Run) -> None:
             )
     if n8 < 6:
         run.cannot('only %d bit tests found on the decode path' % n8)
+
+    # ------------------------------------------------------------------ R9 End-of-RIB family
+    run.rule(
+        'C02.R9',
+        'End-of-RIB for the right family: Update.unpack_message answers the IPv4 unicast marker (a constant family) only for '
+        'the 4 zero octets, or after it looked for an MP_UNREACH_NLRI / MP_REACH_NLRI in the attributes of the same message '
+        'and answered THEIR family (the marker `80 0f 03 AFI SAFI`, one-octet attribute length, is not caught by the fast path)',
+        floor=2,
+    )
+    _r9_eor_family(model, run, folder)
+
+    # ------------------------------------------------------------------ R10 a prefix withdrawn and announced by one UPDATE
+    run.rule(
+        'C02.R10',
+        'RFC 4271 4.3: an UPDATE that both withdraws and announces a prefix is processed as though it did not withdraw it - in '
+        'UpdateHandler.handle and handle_async no removal from the Adj-RIB-In (update_cache_withdraw) can run after a store '
+        '(update_cache) of the same message',
+        floor=2,
+    )
+    from ..cfg import CFG
+
+    for hn in ('handle', 'handle_async'):
+        hf = model.func(UH + '.' + hn)
+        run.analysed(hf)
+        stores = model.calls_to(hf.module, hf.node, 'Cache.update_cache', 'IncomingRIB.update_cache')
+        removes = model.calls_to(hf.module, hf.node, 'Cache.update_cache_withdraw', 'IncomingRIB.update_cache_withdraw')
+        if not stores or not removes:
+            run.cannot('%s: the store / removal calls of the Adj-RIB-In were not found (%d, %d)' % (hf.qualname, len(stores), len(removes)))
+            continue
+        cfg = CFG(hf.node)
+        after: set[int] = set()
+        for sc in stores:
+            sn = cfg.stmt_node_containing(sc)
+            if sn is not None:
+                after |= cfg.reachable(sn.id) - {sn.id}
+        late = []
+        for r in removes:
+            rn = cfg.stmt_node_containing(r)
+            if rn is None:
+                run.cannot('%s: removal call not located in the flow graph' % hf.qualname)
+            elif rn.id in after:
+                late.append(r)
+        run.check(not late, hf.qualname, 'withdraws are applied before the announces are stored', hf.loc(late[0]) if late else hf.loc(removes[0]), 'the removal runs after the store: a prefix the UPDATE lists in both WITHDRAWN ROUTES and NLRI is stored, then removed, and is missing from the Adj-RIB-In although the peer announced it')
+
+
+def _r9_eor_family(model: Model, run: Run, folder: Folder) -> None:
+    um = model.func('exabgp.bgp.message.update.Update.unpack_message')
+    run.analysed(um)
+    ul = Loc(model, um)
+    dparam = um.node.args.args[1].arg if len(um.node.args.args) > 1 else 'data'
+    rets = [r for r in walk_no_nested(um.node) if isinstance(r, ast.Return) and isinstance(r.value, ast.Call) and model.call_matches(um.module, r.value, 'EOR') and len(r.value.args) == 2]
+    const = [r for r in rets if folder.fold(r.value.args[0], um.module, um.cls) == 1 and folder.fold(r.value.args[1], um.module, um.cls) == 1]
+    if not const:
+        run.cannot('Update.unpack_message: no `return EOR(AFI.ipv4, SAFI.unicast)` found')
+        return
+    # returns answering the family of an MP attribute object of this message
+    mp = []
+    for r in rets:
+        a0, a1 = r.value.args
+        if isinstance(a0, ast.Attribute) and isinstance(a1, ast.Attribute) and a0.attr == 'afi' and a1.attr == 'safi' and isinstance(a0.value, ast.Name) and norm(a0.value) == norm(a1.value):
+            src = ' '.join(norm(v) for v in ul.values(a0.value.id))
+            kind = 'unreach' if 'MPURNLRI' in src else 'reach' if 'MPRNLRI' in src else None
+            if kind:
+                mp.append((kind, r))
+    top = {id(n): st for st in um.node.body for n in ast.walk(st)}
+    for r in const:
+        zero = False
+        for t, pol in flat_guards(um.node, r):
+            for c in ast.walk(t):
+                if pol and isinstance(c, ast.Compare) and len(c.ops) == 1 and isinstance(c.ops[0], ast.Eq) and dparam in (norm(c.left), norm(c.comparators[0])):
+                    other = c.comparators[0] if norm(c.left) == dparam else c.left
+                    zero = zero or folder.fold(other, um.module, um.cls) == b'\x00\x00\x00\x00'
+        if zero:
+            run.ok('unpack_message: IPv4 unicast End-of-RIB for the 4 zero octets', um.loc(r))
+            continue
+        before = {k for k, m in mp if m.lineno < r.lineno and top.get(id(m)) is top.get(id(r))}
+        run.check('unreach' in before, um.qualname, 'IPv4 unicast End-of-RIB answered after looking for MP attributes (%s)' % (sorted(before) or 'none looked for'), um.loc(r), 'an UPDATE that decodes to nothing may be the End-of-RIB of another family written `80 0f 03 AFI SAFI` (one-octet attribute length, what other implementations emit): its MP_UNREACH_NLRI names the family; answering ipv4 unicast reports the marker for the wrong family')
